@@ -1074,6 +1074,10 @@ SDcreate(int32       fid,  /* IN: file ID */
         HGOTO_ERROR(DFE_ARGS, FAIL);
     }
 
+    /* nothing can be changed in a file opened for reading only: the change would be dropped at SDend */
+    if (!(handle->flags & NC_RDWR))
+        HGOTO_ERROR(DFE_DENIED, FAIL);
+
     /* fudge the name since its optional */
     if ((name == NULL) || (name[0] == ' ') || (name[0] == '\0'))
         name = "DataSet";
@@ -1306,6 +1310,10 @@ SDsetdimname(int32       id, /* IN: dataset ID */
         HGOTO_ERROR(DFE_ARGS, FAIL);
     }
 
+    /* nothing can be changed in a file opened for reading only: the change would be dropped at SDend */
+    if (!(handle->flags & NC_RDWR))
+        HGOTO_ERROR(DFE_DENIED, FAIL);
+
     /* get the dimension structure */
     dim = SDIget_dim(handle, id);
     if (dim == NULL) {
@@ -1494,6 +1502,10 @@ SDsetrange(int32 sdsid, /* IN: dataset ID */
         HGOTO_ERROR(DFE_ARGS, FAIL);
     }
 
+    /* nothing can be changed in a file opened for reading only: the change would be dropped at SDend */
+    if (!(handle->flags & NC_RDWR))
+        HGOTO_ERROR(DFE_DENIED, FAIL);
+
     var = SDIget_var(handle, sdsid);
     if (var == NULL) {
         HGOTO_ERROR(DFE_ARGS, FAIL);
@@ -1662,6 +1674,10 @@ SDsetattr(int32       id,    /* IN: object ID */
     if (handle == NULL) {
         HGOTO_ERROR(DFE_ARGS, FAIL);
     }
+
+    /* nothing can be changed in a file opened for reading only: the change would be dropped at SDend */
+    if (!(handle->flags & NC_RDWR))
+        HGOTO_ERROR(DFE_DENIED, FAIL);
 
     /* hand over to SDIputattr */
 
@@ -2005,6 +2021,10 @@ SDsetdatastrs(int32       sdsid, /* IN: dataset ID */
         HGOTO_ERROR(DFE_ARGS, FAIL);
     }
 
+    /* nothing can be changed in a file opened for reading only: the change would be dropped at SDend */
+    if (!(handle->flags & NC_RDWR))
+        HGOTO_ERROR(DFE_DENIED, FAIL);
+
     if (handle->vars == NULL) {
         HGOTO_ERROR(DFE_ARGS, FAIL);
     }
@@ -2077,6 +2097,10 @@ SDsetcal(int32   sdsid, /* IN: dataset ID */
         HGOTO_ERROR(DFE_ARGS, FAIL);
     }
 
+    /* nothing can be changed in a file opened for reading only: the change would be dropped at SDend */
+    if (!(handle->flags & NC_RDWR))
+        HGOTO_ERROR(DFE_DENIED, FAIL);
+
     if (handle->vars == NULL) {
         HGOTO_ERROR(DFE_ARGS, FAIL);
     }
@@ -2140,6 +2164,10 @@ SDsetfillvalue(int32 sdsid, /* IN: dataset ID */
     if (handle == NULL) {
         HGOTO_ERROR(DFE_ARGS, FAIL);
     }
+
+    /* nothing can be changed in a file opened for reading only: the change would be dropped at SDend */
+    if (!(handle->flags & NC_RDWR))
+        HGOTO_ERROR(DFE_DENIED, FAIL);
 
     if (handle->vars == NULL) {
         HGOTO_ERROR(DFE_ARGS, FAIL);
@@ -2555,6 +2583,10 @@ SDsetdimstrs(int32       id, /* IN: dimension ID */
         HGOTO_ERROR(DFE_ARGS, FAIL);
     }
 
+    /* nothing can be changed in a file opened for reading only: the change would be dropped at SDend */
+    if (!(handle->flags & NC_RDWR))
+        HGOTO_ERROR(DFE_DENIED, FAIL);
+
     /* get the dimension structure */
     dim = SDIget_dim(handle, id);
     if (dim == NULL) {
@@ -2681,6 +2713,10 @@ SDsetdimscale(int32 id,    /* IN: dimension ID */
     if (handle == NULL) {
         HGOTO_ERROR(DFE_ARGS, FAIL);
     }
+
+    /* nothing can be changed in a file opened for reading only: the change would be dropped at SDend */
+    if (!(handle->flags & NC_RDWR))
+        HGOTO_ERROR(DFE_DENIED, FAIL);
 
     /* get the dimension structure */
     dim = SDIget_dim(handle, id);
